@@ -225,6 +225,11 @@ func (s *encoder) Run(ctx context.Context) {
 		return
 	}
 
+	if ceil(len(encodedData), perMsgLength) > maxLongSmsParts {
+		s.canEncode = false
+		s.reason = fmt.Sprintf("%s encode error: %v", s.Name(), errTooManyParts)
+		return
+	}
 	s.data = splitWithUDHI(encodedData, perMsgLength, s.frameKey)
 }
 
